@@ -12,8 +12,8 @@ import (
 // GenParams selects a generated snapshot deterministically.
 type GenParams struct {
 	Seed  uint64 `json:"seed"`
-	Class string `json:"class"` // small | lens | many | big | longnames
-	Sized bool   `json:"sized"` // NewDBISize vs NewDBI (growth path)
+	Class string `json:"class"`          // small | lens | many | big | longnames
+	Sized bool   `json:"sized"`          // NewDBISize vs NewDBI (growth path)
 	Frac  int    `json:"frac,omitempty"` // percent of the needed size to pre-allocate when Sized (0 = 100)
 }
 
